@@ -1550,7 +1550,7 @@ class LinFamily:
             rest.append(m)
         mism = rest
         if self.prop == "C07":
-            mism = [m for m in mism if any(c.startswith("get") or c.startswith("linget") for c in m[2])]
+            mism = [m for m in mism if any(c.startswith("get") or c.startswith("linget") or c.startswith("linsnap") for c in m[2])]
         elif self.prop == "C03":
             mism = [m for m in mism if any(c.startswith("ref") or c.startswith("linref") for c in m[2])]
         elif self.prop == "C16":
@@ -1563,6 +1563,10 @@ class LinFamily:
             json.dump({"property": self.prop, "family": self.FAMILY, "seed": ctx.seed, "components": comps, "history": e}, open(rp, "w"), indent=1)
             if ev == "linget":
                 res.violations.append({"replay": rp, "what": f"Get while an installed {e['kind']} entry was being replaced {e['replaces']} times: {e['missing']} of {e['gets']} Gets did not return it, {e['dup']} returned it twice ({comps})"})
+                continue
+            if ev == "linsnap":
+                res.violations.append({"replay": rp, "what": f"a Get(ALL) in progress while {e['w1']} and then {e['w2']} were installed returned {sorted(set(e['got']) - set(e['base']))} on top of the base contents "
+                                                             f"(missing: {sorted(set(e['base']) - set(e['got']))}): not the contents of any one moment ({comps}) {e['failed']}"})
                 continue
             if ev == "linref":
                 res.violations.append({"replay": rp, "what": f"DELETE of a referenced {e['what']} was answered OK while the entry referring to it was being re-sent ({e['deletes']} DELETEs, {e['replaces']} replaces): {comps}"})
